@@ -164,7 +164,7 @@ func checkC05(c *Ctx) error {
 				// resolution, its conflicts with the qualified ones stay
 				// likewise an operator that two alternatives of different
 				// levels both want to shift: no level decides, the cell stays
-				tw = []string{"unqualified-prefix", "unqualified-postfix", "unqualified-op", "mixed-shift-levels"}[r.Intn(4)]
+				tw = []string{"unqualified-prefix", "unqualified-postfix", "unqualified-op", "mixed-shift-levels", "unqualified-shares-operator"}[r.Intn(5)]
 			}
 			es := specgen.ExprGrammar(r, tw)
 			cf := es.G.Desugar(false)
